@@ -367,7 +367,8 @@ func PriorityComparator(p *core.Program, r *core.Report) {
 		okShape := false
 		if ok && len(ret.Results) == 1 {
 			if be, ok := ast.Unparen(ret.Results[0]).(*ast.BinaryExpr); ok {
-				l, rr := core.ExprStr(be.X), core.ExprStr(be.Y)
+				// locals introduced for the two elements (and for the slice) are unfolded to their definitions
+				l, rr := Unfold(info, fd.Decl.Body, be.X), Unfold(info, fd.Decl.Body, be.Y)
 				mentions := func(s, idx string) bool { return strings.Contains(s, "["+idx+"]") && strings.HasSuffix(s, ".Priority") }
 				switch be.Op {
 				case token.LSS:
